@@ -181,11 +181,13 @@ def write_if_changed(path, content):
     return True
 
 
-def driver(lines, timeout=1800):
-    """pipe operation lines to the Lean model driver, return output lines"""
+def driver(lines, timeout=1800, pid=None):
+    """pipe operation lines `<pid> <op> ...` to the Lean model driver of that property, return output lines"""
+    pid = pid or lines[0].split()[0]
+    lines = [l[len(pid) + 1:] if l.startswith(pid + ' ') else l for l in lines]
     with LakeLock():
         pass  # make sure no build is half-way; the driver itself only reads .olean files
-    rc, out = run(['lake', 'env', 'lean', '--run', 'Driver.lean'], cwd=LEAN,
+    rc, out = run(['lake', 'env', 'lean', '--run', 'drivers/%s.lean' % pid], cwd=LEAN,
                   input='\n'.join(lines) + '\n', timeout=timeout)
     if rc != 0:
         raise RuntimeError('Lean driver failed: ' + out[-3000:])
